@@ -197,6 +197,7 @@ struct World {
   ThreadSafeVector< Task > *tasks = nullptr;
   std::vector< TaskQueue * > queues;
   AtomicValue< long > *ctr = nullptr;
+  AtomicValue< long > *mxv = nullptr; // cells only updated through AtomicValue::max
   long *lfctr = nullptr;
   // the hydro worker loop's local counter (TaskBasedRadiationHydrodynamicsSimulation.cpp)
   AtomicValue< uint_fast32_t > number_of_tasks;
@@ -210,7 +211,7 @@ struct World {
   std::vector< int > slot_owner, lock_owner;
   std::vector< long > added, popped; // per task index (all queues)
   std::vector< std::string > oracle;
-  std::vector< long > ctr_expect, lf_expect;
+  std::vector< long > ctr_expect, lf_expect, mx_expect;
 
   explicit World(const Scenario &s) : sc(s) {
     ms = new MemorySpace(sc.size);
@@ -232,6 +233,8 @@ struct World {
     for (size_t q = 0; q < sc.nqueues; ++q)
       queues.push_back(new TaskQueue(256));
     ctr = new AtomicValue< long >[sc.nctr + 1];
+    mxv = new AtomicValue< long >[sc.nctr + 1];
+    mx_expect.assign(sc.nctr + 1, 0);
     lfctr = new long[sc.nctr + 1];
     for (size_t c = 0; c <= sc.nctr; ++c)
       lfctr[c] = 0;
@@ -249,6 +252,7 @@ struct World {
     for (auto q : queues)
       delete q;
     delete[] ctr;
+    delete[] mxv;
     delete[] lfctr;
   }
 
@@ -335,6 +339,7 @@ static void erase_first(std::vector< size_t > &l, size_t x) {
 static void run_program(World &w, int tid) {
   const std::vector< Cmd > &prog = w.sc.progs[tid];
   std::vector< size_t > owned, held, mytasks, fin; // newest first, like the model
+  std::vector< long > last_mx;                      // last value this thread saw in a max cell
   const std::string T = std::to_string(tid) + ":";
   auto out = [&](const std::string &s) {
     if (!free_mode)
@@ -512,6 +517,38 @@ static void run_program(World &w, int tid) {
         w.ctr_expect[c.a] += delta;
       }
       out("V" + std::to_string(c.a) + "." + std::to_string(v));
+    } else if (op == "mx") {
+      // AtomicValue::max: after the call returned the cell is at least the argument, and the
+      // values one thread reads one after the other never decrease
+      AtomicValue< long > &x = w.mxv[c.a];
+      x.max(c.b);
+      const long seen = x._value.load(); // raw read: no yield
+      {
+        Guard g(w.om);
+        if (seen < c.b)
+          w.bad("max-returned-but-variable-is-smaller-than-argument(" + std::to_string(c.b) + "," +
+                std::to_string(seen) + ")");
+        if (c.b > w.mx_expect[c.a])
+          w.mx_expect[c.a] = c.b;
+      }
+      if (last_mx.size() <= (size_t)c.a)
+        last_mx.resize(c.a + 1, 0);
+      if (seen < last_mx[c.a]) {
+        Guard g(w.om);
+        w.bad("maximum-went-down(" + std::to_string(last_mx[c.a]) + "," + std::to_string(seen) + ")");
+      }
+      last_mx[c.a] = seen;
+      out("MX" + std::to_string(c.a));
+    } else if (op == "ml") {
+      const long v = w.mxv[c.a].value();
+      if (last_mx.size() <= (size_t)c.a)
+        last_mx.resize(c.a + 1, 0);
+      if (v < last_mx[c.a]) {
+        Guard g(w.om);
+        w.bad("maximum-went-down(" + std::to_string(last_mx[c.a]) + "," + std::to_string(v) + ")");
+      }
+      last_mx[c.a] = v;
+      out("W" + std::to_string(c.a) + "." + std::to_string(v));
     } else if (op == "su") {
       (*w.tasks)[c.a].set_number_of_unfinished_parents(c.b);
       out("K");
@@ -578,7 +615,7 @@ template < typename T > static std::string comma(const std::vector< T > &v) {
 static void run_scenario(const Scenario &sc, uint64_t lineno) {
   World w(sc);
   const size_t n = sc.progs.size();
-  free_mode = (sc.mode == "F" || sc.mode == "G");
+  free_mode = (sc.mode == "F" || sc.mode == "G"); // "X" and "XI" are schedule replay
   std::vector< Worker > workers(n); // never resized
   std::vector< std::thread > threads;
   std::atomic< int > start_flag(0);
@@ -663,8 +700,9 @@ static void run_scenario(const Scenario &sc, uint64_t lineno) {
   }
   for (size_t k = 0; k < sc.nlocks; ++k)
     lk.push_back(w.locks[k]._lock._value.load());
-  std::vector< long > cv, lfv;
+  std::vector< long > cv, lfv, mxf;
   for (size_t c = 0; c < sc.nctr; ++c) {
+    mxf.push_back(w.mxv[c]._value.load());
     cv.push_back(w.ctr[c]._value.load());
     lfv.push_back(w.lfctr[c]);
   }
@@ -701,6 +739,9 @@ static void run_scenario(const Scenario &sc, uint64_t lineno) {
         w.bad("counter-lost-an-update(" + std::to_string(c) + ")");
       if (lfv[c] != w.lf_expect[c])
         w.bad("lockfree-add-lost-an-update(" + std::to_string(c) + ")");
+      if (mxf[c] != w.mx_expect[c])
+        w.bad("max-is-not-the-maximum-of-all-arguments(" + std::to_string(mxf[c]) + "," +
+              std::to_string(w.mx_expect[c]) + ")");
     }
   }
   std::ostringstream o;
@@ -708,7 +749,8 @@ static void run_scenario(const Scenario &sc, uint64_t lineno) {
     o << (stuck.empty() ? "free-ok" : "free-STUCK");
   } else if (free_mode) {
     o << "free taken=" << taken << " nflags=" << nflags << (sc.nqueues ? " " : " ") << qs
-      << " ctr=" << comma(cv) << " lf=" << comma(lfv) << (stuck.empty() ? "" : " STUCK");
+      << " ctr=" << comma(cv) << " lf=" << comma(lfv) << " mx=" << comma(mxf)
+      << (stuck.empty() ? "" : " STUCK");
   } else {
     for (size_t k = 0; k < w.log.size(); ++k)
       o << (k ? " " : "") << w.log[k];
@@ -721,7 +763,8 @@ static void run_scenario(const Scenario &sc, uint64_t lineno) {
       std::vector< long > unf;
       for (size_t t = 0; t < sc.deps.size(); ++t)
         unf.push_back((long)(int8_t)(*w.tasks)[t]._number_of_unfinished_parents._value.load());
-      o << " num=" << (long)(int_fast32_t)w.number_of_tasks._value.load() << " unf=" << comma(unf);
+      o << " num=" << (long)(int_fast32_t)w.number_of_tasks._value.load() << " unf=" << comma(unf)
+        << " mx=" << comma(mxf);
     }
     if (!stuck.empty())
       o << " STUCK " << comma(stuck);
